@@ -2,24 +2,34 @@
    Only property theorems, each closed by [exact] of a lemma of Session/ThreadsProofs.v.
 
    SCOPE: these are theorems about small-step interleaving MODELS of the library's locking protocol
-   (Session/ThreadsModel.v), for ALL schedules of the modelled threads.  They are not statements about
-   the C text under the real scheduler; that part of C13 is sampled by the stress harness
-   (harness/vdrv_threads.c) and labelled as such in the evidence. *)
+   (Session/ThreadsModel.v).  "forall sched" = every schedule, of any length, of the FIXED thread population of
+   one bounded fragment (stated in each name: one client record, one iterator, three/four threads); it is
+   established by exhaustive exploration of the fragment's finite state space inside Coq.  Only the lock-order
+   theorem is about any number of clients and threads.  Nothing here is a statement about the C text under the
+   real scheduler; that part of C13 is sampled by the stress harness (harness/vdrv_threads.c) and labelled as
+   such in the evidence.
+
+   baseline = the protocol of /repo HEAD (29b4a13: fixes 1b1aba3, 97f9e93, 29b4a13 applied);
+   *_before_fix_refuted = regression witnesses for the protocol before those commits;
+   *_refuted without "before_fix" = OPEN findings of HEAD. *)
 From Coq Require Import List Bool Arith.
 From LV Require Import Session.ThreadsModel Session.ThreadsProofs.
 Import ListNotations.
 
-(* --- lock order: any set of threads (any number) whose acquisitions all come from the table of
-   (held, acquired) pairs of the true-colour code paths cannot form a wait-for cycle *)
-Theorem C13_lock_order_acyclic : forall a l,
-  (forall t, In t (a :: l) -> forall m, want t = Some m -> forall h, In h (held t) -> In (h, m) lock_table) ->
+(* --- lock order, MUTEX CYCLES ONLY (a thread blocked for ever on a mutex whose owner has returned, or on a
+   condition variable, is not a cycle: see the *_refuted theorems below).  For any number N of clients and any
+   set of threads whose acquisitions all come from the table of (held, acquired) pairs of the true-colour code
+   paths, no wait-for cycle exists.  The table is hand-written from the source; the correspondence run compares
+   it with the pairs the real library is observed to take. *)
+Theorem C13_lock_order_acyclic_mutex_cycles_only : forall N a l,
+  (forall t, In t (a :: l) -> forall m, want t = Some m -> forall h, In h (held t) -> In (h, m) (lock_table_n N)) ->
   chain (a :: l) -> waits_for (last (a :: l) a) a -> False.
 Proof. exact lock_order_acyclic. Qed.
 
 Example C13_lock_order_acyclic_nonvacuous :
-  let t1 := mkThr [M_send 0] (Some (M_upd 0)) in
-  let t2 := mkThr [M_upd 0] None in
-  (forall t, In t [t1; t2] -> forall m, want t = Some m -> forall h, In h (held t) -> In (h, m) lock_table) /\
+  let t1 := mkThr [P_send 3 2] (Some (P_upd 3 2)) in
+  let t2 := mkThr [P_upd 3 2] None in
+  (forall t, In t [t1; t2] -> forall m, want t = Some m -> forall h, In h (held t) -> In (h, m) (lock_table_n 3)) /\
   chain [t1; t2].
 Proof. exact lock_order_nonvacuous. Qed.
 
@@ -29,63 +39,109 @@ Theorem C13_rank_excludes_cycles : forall (rank : nat -> nat) a l,
   chain (a :: l) -> waits_for (last (a :: l) a) a -> False.
 Proof. exact no_deadlock_cycle. Qed.
 
-(* on a colour-mapped screen the table is NOT rank-respecting: FramebufferUpdateRequest handling takes
-   sendMutex (and, on a write error, updateMutex a second time) while holding updateMutex, the output
-   thread takes them in the opposite order *)
+(* OPEN (model only, not exercised: the harness screens are true-colour): on a colour-mapped screen the table is
+   NOT rank-respecting: FramebufferUpdateRequest handling takes sendMutex (and, on a write error, updateMutex a
+   second time) while holding updateMutex, the output thread takes them in the opposite order; rfbNewFramebuffer with
+   a changed format re-locks the sendMutex it holds (setTranslateFunction -> rfbSendSetColourMapEntries) *)
 Theorem C13_lock_order_palette_refuted :
-  In (M_send 0, M_upd 0) lock_table_palette /\ In (M_upd 0, M_send 0) lock_table_palette /\
-  In (M_upd 0, M_upd 0) lock_table_palette.
+  In (P_send 3 0, P_upd 3 0) lock_table_palette /\ In (P_upd 3 0, P_send 3 0) lock_table_palette /\
+  In (P_upd 3 0, P_upd 3 0) lock_table_palette /\ In (P_send 3 0, P_send 3 0) lock_table_palette.
 Proof. exact palette_table_inversion. Qed.
 
-(* --- the gone callback under threads: for every schedule of {rfbShutdownServer, clientInput,
-   clientOutput, another rfbCloseClient caller} rfbClientConnectionGone runs at most once, and exactly
-   once when the input thread has ended *)
-Theorem C13_gone_once_threaded : forall sched,
-  let s := run sh_st (sh_step false) sched sh_init in
-  sh_gone s <= 1 /\ (sh_pcI s = SH_IN_DONE -> sh_gone s = 1).
+(* --- the teardown under threads, HEAD's protocol, ONE client: for every schedule of {application:
+   rfbShutdownServer then rfbScreenCleanup (which tears down every client it still finds listed), clientInput,
+   clientOutput, another rfbCloseClient caller} rfbClientConnectionGone runs at most once, exactly once when the input
+   thread has ended, and exactly once (record unlinked) when rfbScreenCleanup is through *)
+Theorem C13_gone_once_threaded_one_client : forall sched,
+  let s := run sh_st (sh_step true) sched sh_init in
+  sh_gone s <= 1 /\ (sh_pcI s = SH_IN_DONE -> sh_gone s = 1) /\
+  (sh_pcA s = SH_APP_DONE -> sh_gone s = 1 /\ sh_inlist s = false).
 Proof. exact gone_once_threaded. Qed.
 
-(* --- shutdown terminates.  Baseline = the protocol with notes/fix_C13_1.diff (rfbCloseClient sets
-   state = RFB_SHUTDOWN under updateMutex before the signal, clientOutput re-tests it after LOCK):
-   after any schedule the system is finished or some thread can move, and a fixed round-robin
-   continuation finishes the shutdown. *)
-Theorem C13_shutdown_terminates : forall sched,
+Example C13_gone_once_threaded_nonvacuous :
+  let s := run sh_st (sh_step true) (concat (repeat [0;1;2;3] 12)) sh_init in
+  sh_pcA s = SH_APP_DONE /\ sh_pcI s = SH_IN_DONE /\ sh_gone s = 1.
+Proof. exact gone_once_nonvacuous. Qed.
+
+(* what it rests on (not a finding): without the join, rfbScreenCleanup and the client thread both tear the client down *)
+Theorem C13_gone_twice_without_join_one_client :
+  sh_gone (run sh_st (sh_step_cfg cfg_nojoin) sh_nojoin_witness sh_init) = 2.
+Proof. exact gone_twice_without_join. Qed.
+
+(* --- shutdown terminates, HEAD's protocol (1b1aba3: rfbCloseClient sets state = RFB_SHUTDOWN under updateMutex
+   before the signal, clientOutput re-tests it after LOCK), ONE client, no update pending, select() never fails:
+   after any schedule the system is finished or some thread can move, and a fixed round-robin continuation
+   finishes the shutdown.  Four threads (with a second closer) ... *)
+Theorem C13_shutdown_terminates_one_client : forall sched,
   let s := run sh_st (sh_step true) sched sh_init in
   (sh_final s = true \/ exists t, t < 4 /\ enabled sh_st (sh_step true) t s = true) /\
   sh_final (run sh_st (sh_step true) sh_finishing s) = true.
 Proof. intros sched. split; [apply shutdown_never_stuck_repaired | apply shutdown_can_always_finish_repaired]. Qed.
 
-(* the protocol of the library WITHOUT that fix: schedule [sh_witness] reaches an unfinished state in which
-   no thread can move (lost wake-up) - finding C13-N1, replayed on the library with a forced schedule *)
+(* ... and three threads: rfbShutdownServer, clientInput, clientOutput alone (no helper whose moves could satisfy
+   the "some thread can move" disjunct) *)
+Theorem C13_shutdown_terminates_three_threads_one_client : forall sched,
+  let s := run sh_st (sh_step3 cfg_head) sched sh_init in
+  (sh_final3 s = true \/ exists t, t < 3 /\ enabled sh_st (sh_step3 cfg_head) t s = true) /\
+  sh_final3 (run sh_st (sh_step3 cfg_head) sh3_finishing s) = true.
+Proof. exact shutdown_terminates_three_threads. Qed.
+
+(* regression witness, protocol BEFORE 1b1aba3: schedule [sh_witness] reaches an unfinished state in which
+   no thread can move (lost wake-up) - finding C13-N1 (fixed) *)
 Theorem C13_shutdown_terminates_before_fix_refuted :
   let s := run sh_st (sh_step false) sh_witness sh_init in
   sh_final s = false /\ forall t, enabled sh_st (sh_step false) t s = false.
 Proof. exact shutdown_lost_wakeup. Qed.
 
-(* --- no use after free through the client iterator.  Baseline = the protocol with notes/fix_C13_2.diff
-   (the iterator takes its reference while holding rfbClientListMutex; rfbClientConnectionGone waits for
-   refCount == 0 and unlinks under the same mutex): no schedule touches freed memory, and the teardown
-   still completes. *)
-Theorem C13_no_use_after_free_iter : forall sched,
+(* OPEN, finding C13-N4: select() fails in clientInput (EINTR: a signal handler of the application ran on that
+   thread; main.c:588-593).  The loop is left without state = RFB_SHUTDOWN: input blocked in THREAD_JOIN, output in
+   WAIT, no teardown; neither of the client's threads can move *)
+Theorem C13_input_exit_without_shutdown_refuted :
+  let s := run sh_st (sh_step_cfg cfg_selfail) sh_selfail_witness sh_init in
+  sh_shut s = false /\ sh_gone s = 0 /\ sh_pcI s = 4 /\ sh_wait s = true /\
+  enabled sh_st (sh_step_cfg cfg_selfail) 1 s = false /\ enabled sh_st (sh_step_cfg cfg_selfail) 2 s = false.
+Proof. exact input_leaves_loop_without_shutdown. Qed.
+
+(* with notes/fix_C13_4.diff (NOT in /repo): the client's two threads alone always finish with exactly one teardown,
+   and the four-thread system never gets stuck *)
+Theorem C13_input_exit_fixed_one_client : forall sched,
+  let s := run sh_st (sh_step12 cfg_selfail_fixed) sched sh_init in
+  (sh_final12 s = true \/ exists t, t < 3 /\ enabled sh_st (sh_step12 cfg_selfail_fixed) t s = true) /\
+  sh_final12 (run sh_st (sh_step12 cfg_selfail_fixed) sh12_finishing s) = true.
+Proof. exact input_exit_fixed_client_threads_finish. Qed.
+
+Theorem C13_input_exit_fixed_shutdown_terminates_one_client : forall sched,
+  let s := run sh_st (sh_step_cfg cfg_selfail_fixed) sched sh_init in
+  (sh_final s = true \/ exists t, t < 4 /\ enabled sh_st (sh_step_cfg cfg_selfail_fixed) t s = true) /\
+  sh_final (run sh_st (sh_step_cfg cfg_selfail_fixed) sh_finishing s) = true /\ sh_gone s <= 1.
+Proof. exact input_exit_fixed_shutdown_terminates. Qed.
+
+(* --- no use after free through the client iterator, HEAD's protocol (97f9e93: the iterator takes its reference while
+   holding rfbClientListMutex; rfbClientConnectionGone waits for refCount == 0 and unlinks under the same mutex).
+   ONE client record, ONE iterator doing ONE Next/use/release (the advance path with its deferred DecrClientRef, a
+   second iterator and rfbReleaseClientIterator are not in the fragment): no schedule touches freed memory, and the
+   teardown still completes. *)
+Theorem C13_no_use_after_free_iter_one_client_one_iterator : forall sched,
   it_uaf (run it_st (it_step true) sched it_init) = false.
 Proof. exact iterator_safe_when_ref_taken_under_list_mutex. Qed.
 
-Theorem C13_iter_teardown_completes : forall sched,
+Theorem C13_iter_teardown_completes_one_client_one_iterator : forall sched,
   let z := run it_st (it_step true) it_finishing (run it_st (it_step true) sched it_init) in
   it_freed z = true /\ it_uaf z = false.
 Proof. exact iterator_repaired_teardown_completes. Qed.
 
-(* WITHOUT the fix: finding C13-N2, two-thread schedule [it_witness] *)
+(* regression witness, protocol BEFORE 97f9e93: finding C13-N2 (fixed) *)
 Theorem C13_no_use_after_free_iter_before_fix_refuted : it_uaf (run it_st (it_step false) it_witness it_init) = true.
 Proof. exact iterator_use_after_free. Qed.
 
-(* --- threads reclaimed: REFUTED - after n connect/disconnect cycles n ended client threads have never
-   been joined, and rfbShutdownServer does not join them either (for every n) *)
-Theorem C13_threads_reclaimed_refuted : forall n,
+(* --- threads reclaimed: OPEN, finding C13-F13.  This is BOOKKEEPING of a fact measured on the library (the counting
+   model joins only in ThShutdown by construction), not an independent proof: after n connect/disconnect cycles n ended
+   client threads have never been joined, and rfbShutdownServer does not join them either *)
+Theorem C13_threads_reclaimed_refuted_by_construction : forall n,
   th_zombie (th_run (th_cycles n)) = n /\ th_zombie (th_run (th_cycles n ++ [ThShutdown])) = n.
 Proof. intros n. split; [apply threads_never_joined | apply shutdown_does_not_reclaim_them]. Qed.
 
-(* --- cursor bracket: REFUTED for two output threads (per-screen save buffer, per-client brackets) *)
+(* --- cursor bracket: OPEN, finding C13-F11, two output threads (per-screen save buffer, per-client brackets) *)
 Theorem C13_cursor_bracket_atomic_refuted :
   let s := run cur_st (cur_step false) cur_witness cur_init in
   cur_final s = true /\ cu_fb s = true.
@@ -97,40 +153,40 @@ Theorem C13_cursor_bracket_atomic_partial : forall sched,
 Proof. exact cursor_bracket_serial. Qed.
 
 (* --- a request wakes the output thread whenever it has work (needed for "every staying client ends
-   up with the final framebuffer").  [rq_good b kd s] = from state s the round-robin continuation
-   [rq_rr] ends with the update sent.  Application's last operation = mark (kind 0) or copy (kind 1),
-   any schedule of application, input and output thread: *)
-Theorem C13_request_wakes_output : forall kd sched, kd < 2 ->
+   up with the final framebuffer").  ONE client, ONE request, ONE last operation.  [rq_good b kd s] = from state s
+   the round-robin continuation [rq_rr] ends with the update sent.  Application's last operation = mark (kind 0) or
+   copy (kind 1), any schedule of application, input and output thread: *)
+Theorem C13_request_wakes_output_one_client : forall kd sched, kd < 2 ->
   rq_good false kd (run rq_st (rq_step false kd) sched rq_init) = true.
 Proof. exact request_wakes_output. Qed.
 
 (* cursor moved / replaced before the request arrives (these operations do not signal by themselves) *)
-Theorem C13_request_wakes_output_cursor : forall sched,
+Theorem C13_request_wakes_output_cursor_one_client : forall sched,
   rq_good false 2 (run rq_st (rq_step false 2) sched rq_cur_init) = true.
 Proof. exact request_wakes_output_cursor. Qed.
 
 (* the handler's signal must be unconditional: "signal only if modifiedRegion is non-empty" loses the
-   update after a copy *)
+   update after a copy (what seeded changes C13_A / C13_E do) *)
 Theorem C13_request_signal_must_be_unconditional :
   let s := run rq_st (rq_step true 1) rq_witness rq_init in
   rq_req s = true /\ rq_copy s = true /\ rq_sent s = false /\
   forall t, enabled rq_st (rq_step true 1) t s = false.
 Proof. exact conditional_signal_loses_update. Qed.
 
-(* REFUTED for the faithful protocol: a cursor change while a request is outstanding wakes nobody *)
+(* OPEN (low severity, model only): a cursor change while a request is outstanding wakes nobody *)
 Theorem C13_cursor_change_wakes_output_refuted :
   let s := run rq_st (rq_step false 2) rq_cur_witness rq_init in
   rq_req s = true /\ rq_cur s = true /\ rq_sent s = false /\ forall t, enabled rq_st (rq_step false 2) t s = false.
 Proof. exact cursor_change_does_not_wake. Qed.
 
-(* --- rfbShutdownServer joins a client thread: with the repaired order (thread id read and rfbCloseClient
-   called while the iterator's reference is held, iterator advanced afterwards) the application never
-   touches a freed client record, whenever the peer disconnects, and never gets stuck *)
-Theorem C13_shutdown_join_safe : forall sched,
+(* --- rfbShutdownServer joins a client thread, HEAD's order (29b4a13: thread id read and rfbCloseClient called while
+   the iterator's reference is held, iterator advanced afterwards), ONE client: the application never touches a freed
+   client record, whenever the peer disconnects, and never gets stuck *)
+Theorem C13_shutdown_join_safe_one_client : forall sched,
   sj_uaf (run sj_st (sj_step true) sched sj_init) = false.
 Proof. exact shutdown_join_safe_repaired. Qed.
 
-Theorem C13_shutdown_join_never_stuck : forall sched,
+Theorem C13_shutdown_join_never_stuck_one_client : forall sched,
   let s := run sj_st (sj_step true) sched sj_init in
   sj_final s = true \/ exists t, t < 2 /\ enabled sj_st (sj_step true) t s = true.
 Proof. exact shutdown_join_never_stuck_repaired. Qed.
@@ -139,16 +195,16 @@ Example C13_shutdown_join_nonvacuous :
   let s := run sj_st (sj_step true) [0; 0; 0; 1; 1; 0] sj_init in sj_final s = true /\ sj_freed s = true /\ sj_uaf s = false.
 Proof. exact shutdown_join_nonvacuous. Qed.
 
-(* REFUTED for the faithful protocol (HEAD, main.c rfbShutdownServer): the iterator is advanced first,
-   which drops the only reference; the notified client thread frees the record; the application then
-   reads currentCl->screen->backgroundLoop and currentCl->client_thread *)
+(* regression witness, order BEFORE 29b4a13: the iterator is advanced first, which drops the only reference; the
+   notified client thread frees the record; the application then reads currentCl->screen->backgroundLoop and
+   currentCl->client_thread - finding C13-N3 (fixed) *)
 Theorem C13_shutdown_join_safe_before_fix_refuted :
   let s := run sj_st (sj_step false) sj_witness sj_init in sj_freed s = true /\ sj_uaf s = true.
 Proof. exact shutdown_join_reads_freed_record. Qed.
 
-(* --- marks that arrive while an update is being sent survive: the send step does not touch
-   modifiedRegion after the region to send was computed *)
-Theorem C13_send_keeps_concurrent_marks : forall sched,
+(* --- marks that arrive while an update is being sent survive (ONE pixel, ONE update in flight): the send step does
+   not touch modifiedRegion after the region to send was computed *)
+Theorem C13_send_keeps_concurrent_marks_one_pixel : forall sched,
   let s := run sk_st (sk_step false) sched sk_init in
   sk_pcA s = 2 -> sk_pcO s = 5 -> sk_client s = true.
 Proof. exact send_keeps_concurrent_marks. Qed.
@@ -161,3 +217,26 @@ Theorem C13_subtract_after_send_loses_mark :
   let s := run sk_st (sk_step true) [1; 1; 0; 0; 1; 1; 1] sk_init in
   sk_pcA s = 2 /\ sk_pcO s = 5 /\ sk_client s = false.
 Proof. exact subtract_after_send_loses_mark. Qed.
+
+(* --- rfbNewFramebuffer: OPEN, finding C13-N5.  It locks every open client's sendMutex over one iterator pass and
+   unlocks over a SECOND pass (main.c:1126-1130, 1202-1229).  ONE client record.
+   (a) the peer of an idle client disconnects in between: the client is closed and unlinked, the second pass skips it,
+       rfbNewFramebuffer returns holding its sendMutex, the client's own thread blocks for ever in
+       rfbClientConnectionGone (LOCK(cl->sendMutex), rfbserver.c:669): not a cycle, nobody can move *)
+Theorem C13_newfb_leaves_sendmutex_locked_refuted :
+  let s := run nf_st (nf_step 0) nf_gone_witness (nf_init 0) in
+  nf_pcA s = NF_APP_DONE /\ nf_send s = 1 /\ nf_pcB s = 3 /\ nf_freed s = false /\ nf_ok s = false /\
+  forall t, enabled nf_st (nf_step 0) t s = false.
+Proof. exact newfb_leaves_sendmutex_locked. Qed.
+
+(* (b) a connection accepted in between gets an UNLOCK of a sendMutex that was never locked *)
+Theorem C13_newfb_unlocks_unlocked_mutex_refuted :
+  nf_badunlock (run nf_st (nf_step 1) nf_new_witness (nf_init 1)) = true.
+Proof. exact newfb_unlocks_unlocked_mutex. Qed.
+
+(* what does hold: when the client neither goes nor arrives while rfbNewFramebuffer runs, the bracket is balanced and
+   nobody gets stuck (both modes, every schedule of the serialised system) *)
+Theorem C13_newfb_balanced_partial : forall m sched, m < 2 ->
+  let s := run nf_st (nf_step_serial m) sched (nf_init m) in
+  nf_ok s = true /\ (nf_final s = true \/ exists t, t < 2 /\ enabled nf_st (nf_step_serial m) t s = true).
+Proof. exact newfb_balanced_when_serialised. Qed.
